@@ -74,6 +74,7 @@ func Reset(enable bool) {
 	mu.Lock()
 	byGid, byName = map[int64]*thread{}, map[string]*thread{}
 	spawnN, yields, panics, SnapHook, inited, sched = 0, 0, nil, nil, true, 0
+	noSuppress = false
 	if enable {
 		sched = gid()
 	}
@@ -140,6 +141,13 @@ func Go(name string, fn func()) {
 	}()
 }
 
+// noSuppress makes yields live even while the goroutine holds an exclusive mutex (the mutex still
+// excludes: a thread that runs into it blocks until the parked holder is stepped on). Needed to
+// see accesses that one side makes OUTSIDE the mutex the other side holds. Cleared by Reset.
+var noSuppress bool
+
+func SetNoSuppress(b bool) { mu.Lock(); noSuppress = b; mu.Unlock() }
+
 // Yield is a preemption point: no-op when the scheduler is off, on the scheduler goroutine, inside
 // the snapshot hook, or while the goroutine holds an exclusive mutex; otherwise parks until Stepped.
 func Yield(label string) {
@@ -164,7 +172,7 @@ func Yield(label string) {
 		mu.Lock()
 		t.inHook = false
 	}
-	if t.held > 0 || !on.Load() {
+	if (t.held > 0 && !noSuppress) || !on.Load() {
 		mu.Unlock()
 		return
 	}
